@@ -670,3 +670,37 @@ Qed.
 Lemma probe_silent proposed s r :
   hs_probe proposed s (IT :: IT :: IT :: r) = (probe_eval None proposed, send 114 (send 114 (send 114 s)), r).
 Proof. reflexivity. Qed.
+
+(* ---- (4) the fuel of the size search is never what ends it ---------------------------------------------- *)
+Lemma size_div2 r : (N.size_nat (N.div2 r) = pred (N.size_nat r))%nat.
+Proof. destruct r as [|[p|p|]]; reflexivity. Qed.
+
+Lemma shift_is_div2 r : N.shiftr r src_PROBE_SHIFT = N.div2 r.
+Proof. change src_PROBE_SHIFT with 1. rewrite <- N.div2_spec. reflexivity. Qed.
+
+(* the fuel of the size search is never what ends it: once it covers the bit length of the range, more fuel changes nothing *)
+Lemma autoprobe_fuel_enough f : forall proposed range maxf s l,
+  (N.size_nat range <= f)%nat ->
+  hs_autoprobe_loop (S f) proposed range maxf s l = hs_autoprobe_loop f proposed range maxf s l.
+Proof.
+  induction f as [|f IH]; intros proposed range maxf s l Hs.
+  - assert (range = 0) by (destruct range; [reflexivity | cbn in Hs; destruct p; cbn in Hs; lia]). subst range.
+    reflexivity.
+  - cbn [hs_autoprobe_loop].
+    destruct ((0 <? range) && _) eqn:G; [|reflexivity].
+    unfold bind. destruct (hs_probe proposed s l) as [[p s1] l1].
+    destruct (_ <? 0)%Z; [reflexivity |].
+    rewrite shift_is_div2.
+    apply IH. rewrite size_div2. lia.
+Qed.
+
+Lemma autoprobe_fuel_16 : (N.size_nat src_PROBE_RANGE <= 16)%nat.
+Proof. vm_compute. lia. Qed.
+
+Lemma autoprobe_fuel_adequate k proposed maxf s l :
+  hs_autoprobe_loop (16 + k) proposed src_PROBE_RANGE maxf s l = hs_autoprobe_loop 16 proposed src_PROBE_RANGE maxf s l.
+Proof.
+  induction k as [|k IH]; [reflexivity |].
+  replace (16 + S k)%nat with (S (16 + k))%nat by lia.
+  rewrite autoprobe_fuel_enough; [exact IH | pose proof autoprobe_fuel_16; lia].
+Qed.
